@@ -438,6 +438,9 @@ pub struct Node {
 	pub outdated_chans: BTreeSet<usize>,
 	/// channels closed with OutdatedChannelManager in any incarnation so far
 	pub ever_outdated_chans: BTreeSet<usize>,
+	/// terminal events (payment id, is PaymentSent) this incarnation inherited, still unhandled, in
+	/// the queue of the manager snapshot it was loaded from: generated by an earlier incarnation
+	pub inherited_terminal: Vec<([u8; 32], bool)>,
 	/// channels this node reported closed (any reason) in this / in an earlier incarnation
 	pub closed_this_incarnation: BTreeSet<usize>,
 	pub closed_in_earlier_incarnation: BTreeSet<usize>,
@@ -740,6 +743,7 @@ impl World {
 				forward_fees_told_msat: 0,
 				outdated_chans: BTreeSet::new(),
 				ever_outdated_chans: BTreeSet::new(),
+				inherited_terminal: Vec::new(),
 				closed_this_incarnation: BTreeSet::new(),
 				closed_in_earlier_incarnation: BTreeSet::new(),
 				loaded_gens: Vec::new(),
@@ -2322,14 +2326,24 @@ impl World {
 			let pending = if deferred { mon.pending_operation_count() } else { 0 };
 			let _ = mgr.get_and_clear_needs_persistence();
 			let bytes = mgr.encode();
-			(pending, bytes)
+			let queued: Vec<([u8; 32], bool)> = mgr
+				.verif_pending_events()
+				.iter()
+				.filter_map(|e| match e {
+					Event::PaymentSent { payment_id: Some(id), .. } => Some((id.0, true)),
+					Event::PaymentFailed { payment_id, .. } => Some((payment_id.0, false)),
+					_ => None,
+				})
+				.collect();
+			(pending, bytes, queued)
 		});
 		match res {
-			Ok((pending, bytes)) => {
+			Ok((pending, bytes, queued)) => {
 				{
 					let mut d = self.nodes[n].disk.lock().unwrap();
 					if !d.frozen {
 						d.manager = Some(bytes);
+						d.manager_pending_terminal = queued;
 						d.manager_generation += 1;
 					}
 				}
